@@ -84,6 +84,12 @@ func genScenarioC01(t *Tape, thorough bool) *Scenario {
 		if t.S("cfg").Chance(1, 30) {
 			o.Prof.BigChance, o.Prof.BigMax = 6, 70000
 		}
+		if t.S("cfg").Chance(1, 400) {
+			n := 1
+			o.Prof.JumboLeft = &n
+			o.Prof.Kinds = []colKind{kBlob, kLong, kVarchar}
+			o.MaxUnits, o.MaxRows = 4, 2
+		}
 	}
 	h := GenHistory(hs, &o)
 	cs := t.S("cfg")
@@ -203,6 +209,7 @@ func genScenarioC15(t *Tape, thorough bool) *Scenario {
 	o.MaxCols = 8
 	o.WideTables = true
 	o.TableIDReuse = true
+	o.CountChange = true
 	o.UnitWeights = [numUnitKinds]int{uTxXID: 6, uTxCommit: 2, uDDL: 1, uAutoRows: 3, uStmtDML: 0,
 		uTxRollback: 0, uUnknownStmt: 0, uIgnorable: 1, uRotate: 1}
 	h := GenHistory(hs, &o)
